@@ -990,8 +990,10 @@ def get_pad_shapes_chunks(array, pad_width, axes, mode):
             if mode != "constant" or pad_width[d][i] == 0:
                 pad_chunks[i][d] = (pad_width[d][i],)
             else:
+                # chunk the pad like the array's largest chunk along this
+                # axis (one chunk if the axis is empty)
                 pad_chunks[i][d] = normalize_chunks(
-                    (max(pad_chunks[i][d]),), (pad_width[d][i],)
+                    (max(pad_chunks[i][d]) or pad_width[d][i],), (pad_width[d][i],)
                 )[0]
 
     pad_shapes = [tuple(s) for s in pad_shapes]
